@@ -9,6 +9,7 @@
   vf scan UNIT                                     list trusted items (external_body, axiom, assume_specification)
 """
 import os
+import re
 import sys
 
 sys.path.insert(0, os.path.dirname(os.path.dirname(os.path.abspath(__file__))))
